@@ -11,6 +11,8 @@ import time
 
 # property -> (harness modules, harness names)
 PROPS: dict[str, dict] = {
+    "C05": {"modules": ["vf.h_fail"], "harnesses": ["fail-healthcheck", "fail-executor-loop", "fail-task-body", "fail-bridge-events", "fail-controller-run"]},
+    "C07": {"modules": ["vf.h_xfer"], "harnesses": ["data-transfers"]},
     "C06": {"modules": ["vf.h_comms"], "harnesses": ["ack-messaging", "retry-budget-step", "frame-sequences"]},
     "C11": {"modules": ["vf.h_xform"], "harnesses": ["xform-copy-rename", "xform-dedup-fuse", "xform-split-expand"]},
     "C14": {"modules": ["vf.h_names"], "harnesses": ["fluent-names", "fluent-operands"]},
